@@ -56,23 +56,29 @@ def isOrderIndexKey : Bytes → Bool
   | b :: _ => b = 3 || b = 4 || b = 5 || b = 9
   | [] => false
 
-/-- Order present ⇔ exactly its index entries; no dangling entries; same for payments. -/
-structure IndexInv (s : Store) : Prop where
+/-- the store as a lookup function -/
+abbrev KV := Bytes → Option Val
+
+/-- Order present ⇔ exactly its index entries; no dangling entries; same for payments.
+Stated on the lookup function so that it does not depend on how the store is represented. -/
+structure IndexInvF (g : KV) : Prop where
   /-- every `0x02…` key is an order key holding an order record carrying that id -/
-  order_key : ∀ r v, s.get (2 :: r) = some v → ∃ id o, r = u64Bz id ∧ v = .order o ∧ o.id = id
+  order_key : ∀ r v, g (2 :: r) = some v → ∃ id o, r = u64Bz id ∧ v = .order o ∧ o.id = id
   /-- an order record has all of its index entries -/
-  indexed : ∀ id o, s.get (keyOrder id) = some (.order o) → ∀ e ∈ orderIndexEntries o, s.get e.1 = some e.2
+  indexed : ∀ id o, g (keyOrder id) = some (.order o) → ∀ e ∈ orderIndexEntries o, g e.1 = some e.2
   /-- every entry of the four order indexes is an index entry of a live order -/
-  no_dangling : ∀ k v, isOrderIndexKey k = true → s.get k = some v →
-    ∃ id o, s.get (keyOrder id) = some (.order o) ∧ (k, v) ∈ orderIndexEntries o
+  no_dangling : ∀ k v, isOrderIndexKey k = true → g k = some v →
+    ∃ id o, g (keyOrder id) = some (.order o) ∧ (k, v) ∈ orderIndexEntries o
   /-- every `0x70…` key is the key of the payment it holds -/
-  pay_key : ∀ r v, s.get (112 :: r) = some v → ∃ p, v = .payment p ∧ 112 :: r = keyPayment p.source p.ext
+  pay_key : ∀ r v, g (112 :: r) = some v → ∃ p, v = .payment p ∧ 112 :: r = keyPayment p.source p.ext
   /-- a payment with a target is listed under that target -/
-  pay_indexed : ∀ p, s.get (keyPayment p.source p.ext) = some (.payment p) →
-    ∀ e ∈ paymentIndexEntries p, s.get e.1 = some e.2
+  pay_indexed : ∀ p, g (keyPayment p.source p.ext) = some (.payment p) →
+    ∀ e ∈ paymentIndexEntries p, g e.1 = some e.2
   /-- every target-index entry belongs to a stored payment with that (current) target -/
-  pay_no_dangling : ∀ r v, s.get (16 :: r) = some v →
-    ∃ p, s.get (keyPayment p.source p.ext) = some (.payment p) ∧ (16 :: r, v) ∈ paymentIndexEntries p
+  pay_no_dangling : ∀ r v, g (16 :: r) = some v →
+    ∃ p, g (keyPayment p.source p.ext) = some (.payment p) ∧ (16 :: r, v) ∈ paymentIndexEntries p
+
+def IndexInv (s : Store) : Prop := IndexInvF s.get
 
 /-- no key occurs twice (so a prefix scan returns each entry once) -/
 def KeysNodup (s : Store) : Prop := (s.map Prod.fst).Nodup
@@ -80,6 +86,30 @@ def KeysNodup (s : Store) : Prop := (s.map Prod.fst).Nodup
 /-- every order id in the store is between 1 and the last-order-id counter -/
 def CounterInv (s : Store) : Prop :=
   ∀ id v, s.get (keyOrder id) = some v → 1 ≤ id.toNat ∧ id.toNat ≤ (getLastOrderID s).toNat
+
+/-- the order ids handed out along a history, in order -/
+def createdOrderIds (st : State) : List Op → List UInt64
+  | [] => []
+  | op :: ops =>
+    match apply st op with
+    | some (st', .orderId id) => id :: createdOrderIds st' ops
+    | some (st', _) => createdOrderIds st' ops
+    | none => createdOrderIds st ops
+
+/-- the market ids of the markets created along a history, in order -/
+def createdMarketIds (st : State) : List Op → List UInt32
+  | [] => []
+  | op :: ops =>
+    match apply st op with
+    | some (st', .marketId m) => m :: createdMarketIds st' ops
+    | some (st', _) => createdMarketIds st' ops
+    | none => createdMarketIds st ops
+
+/-- a market id identifies at most one market: the known-market entries and the market accounts
+are the same ids, each once -/
+structure MarketInv (st : State) : Prop where
+  known_iff : ∀ m, isMarketKnown st.kv m = true ↔ m ∈ st.accts.map Prod.fst
+  accts_nodup : (st.accts.map Prod.fst).Nodup
 
 /-! ### What a listing must return -/
 
@@ -129,6 +159,39 @@ def insertPayment (p : Payment) : List Payment → List Payment
 def specPayments (s : Store) (l : PaymentLookup) (reverse : Bool) : List Payment :=
   let ps := ((paymentRecords s).filter l.matches).foldr insertPayment []
   if reverse then ps.reverse else ps
+
+/-! ### What a client does to read a whole listing -/
+
+/-- Follow `next_key` through `filteredPaginateAfterOrder` (first request without a key) and
+concatenate the pages; `fuel` bounds the number of requests. -/
+def collectByKey (ps : List Entry) (limit : Nat) (rev : Bool) (after : UInt64) (hit : Entry → Bool) :
+    Nat → Option Bytes → Except PErr (List Entry)
+  | 0, _ => .error .invalid
+  | fuel + 1, key =>
+    match filteredPaginateAfterOrder ps { key := key, limit := limit, reverse := rev } after hit with
+    | .error e => .error e
+    | .ok (acc, resp) =>
+      match resp.nextKey with
+      | some (b :: r) =>
+        (match collectByKey ps limit rev after hit fuel (some (b :: r)) with
+         | .error e => .error e
+         | .ok rest => .ok (acc ++ rest))
+      | _ => .ok acc
+
+/-- Advance `offset` by `limit` while the response carries a `next_key`. -/
+def collectByOffset (ps : List Entry) (limit : Nat) (rev : Bool) (after : UInt64) (hit : Entry → Bool) :
+    Nat → Nat → Except PErr (List Entry)
+  | 0, _ => .error .invalid
+  | fuel + 1, offset =>
+    match filteredPaginateAfterOrder ps { offset := offset, limit := limit, reverse := rev } after hit with
+    | .error e => .error e
+    | .ok (acc, resp) =>
+      match resp.nextKey with
+      | some (_ :: _) =>
+        (match collectByOffset ps limit rev after hit fuel (offset + limit) with
+         | .error e => .error e
+         | .ok rest => .ok (acc ++ rest))
+      | _ => .ok acc
 
 /-! ### Executable invariant check (run on the implementation's raw dump) -/
 
